@@ -204,6 +204,38 @@ func init() {
 		} else {
 			w.WriteString("@[reducible] def decPrefix : Nat := 0\ndef decTruncates : Bool := false  -- standardDecrypt returns every decrypted block\n")
 		}
+		// standardDecrypt / standardEncryptionVerifier / standardConvertPasswdToKey length guards and slices
+		w.WriteString("\n/-! standard encryption: EncryptionInfo guards (standardDecrypt, standardEncryptionVerifier) -/\n")
+		c13pat(w, "standardDecrypt", b, `if len\(encryptionInfoBuf\) < NUM \|\| len\(encryptedPackageBuf\) < NUM \{ return nil, ErrWorkbookFileFormat \}`, 1, "sdInfoMin", "sdPkgMin")
+		c13pat(w, "standardDecrypt", b, `encryptionHeaderSize := int\(binary\.LittleEndian\.Uint32\(encryptionInfoBuf\[NUM:NUM\]\)\)`, 1, "sdHsLo", "sdHsHi")
+		c13pat(w, "standardDecrypt", b, `if encryptionHeaderSize < NUM \|\| encryptionHeaderSize > len\(encryptionInfoBuf\)-NUM \{ return nil, ErrWorkbookFileFormat \}`, 1, "sdHdrMin", "sdHdrBase")
+		c13pat(w, "standardDecrypt", b, `block := encryptionInfoBuf\[NUM : NUM\+encryptionHeaderSize\]`, 1, "sdBlockLo", "sdBlockLo2")
+		c13pat(w, "standardDecrypt", b, `AlgID: binary\.LittleEndian\.Uint32\(block\[NUM:NUM\]\)`, 1, "sdAlgLo", "sdAlgHi")
+		c13pat(w, "standardDecrypt", b, `KeySize: binary\.LittleEndian\.Uint32\(block\[NUM:NUM\]\)`, 1, "sdKeyLo", "sdKeyHi")
+		c13pat(w, "standardDecrypt", b, `Reserved2: binary\.LittleEndian\.Uint32\(block\[NUM:NUM\]\), CspName: string\(block\[NUM:\]\)`, 1, "sdResLo", "sdResHi", "sdCspLo")
+		c13pat(w, "standardDecrypt", b, `block = encryptionInfoBuf\[NUM\+encryptionHeaderSize:\]`, 1, "sdRestLo")
+		c13pat(w, "standardDecrypt", b, `algIDMap := map\[uint32\]string\{ NUM: "AES-128", NUM: "AES-192", NUM: "AES-256", \}`, 1, "sdAes128", "sdAes192", "sdAes256")
+		c13pat(w, "standardDecrypt", b, `if verifierSize := map\[string\]int\{"RC4": NUM, "AES": NUM\}\[algorithm\]; len\(block\) < verifierSize \{ return nil, ErrWorkbookFileFormat \}`, 1, "sdVerifierRC4", "sdVerifierAES")
+		if !strings.Contains(b, `algorithm := "AES" _, ok := algIDMap[header.AlgID] if !ok { algorithm = "RC4" }`) {
+			fail("standardDecrypt: algorithm selection")
+		}
+		if !strings.Contains(b, `blob, err := aes.NewCipher(secretKey) if err != nil { return nil, err } if len(x)%aes.BlockSize != 0 { return nil, ErrWorkbookFileFormat }`) {
+			fail("standardDecrypt: cipher and block-length guards")
+		}
+		b2 := c13body("", "standardEncryptionVerifier")
+		c13pat(w, "standardEncryptionVerifier", b2, `SaltSize: binary\.LittleEndian\.Uint32\(blob\[:NUM\]\), Salt: blob\[NUM:NUM\], EncryptedVerifier: blob\[NUM:NUM\], VerifierHashSize: binary\.LittleEndian\.Uint32\(blob\[NUM:NUM\]\),`, 1,
+			"svSaltSizeHi", "svSaltLo", "svSaltHi", "svVerLo", "svVerHi", "svHsLo", "svHsHi")
+		c13pat(w, "standardEncryptionVerifier", b2, `if algorithm == "RC4" \{ verifier\.EncryptedVerifierHash = blob\[NUM:NUM\] \} else if algorithm == "AES" \{ verifier\.EncryptedVerifierHash = blob\[NUM:NUM\] \}`, 1,
+			"svHashLoRC4", "svHashHiRC4", "svHashLoAES", "svHashHiAES")
+		b2 = c13body("", "standardConvertPasswdToKey")
+		if !strings.Contains(b2, `cbRequiredKeyLength := int(header.KeySize) / 8`) || !strings.Contains(b2, `x3 := append(x1, x2...) if cbRequiredKeyLength > len(x3) { return nil, ErrWorkbookFileFormat } keyDerived := x3[:cbRequiredKeyLength]`) {
+			fail("standardConvertPasswdToKey: derived key length guard")
+		}
+		b2 = c13body("", "encryptionMechanism")
+		if !strings.Contains(b2, `if len(buffer) < 4 { err = ErrUnknownEncryptMechanism return }`) ||
+			!strings.Contains(b2, `if versionMajor == 4 && versionMinor == 4 { mechanism = "agile" return } else if (2 <= versionMajor && versionMajor <= 4) && versionMinor == 2 { mechanism = "standard" return } else if (versionMajor == 3 || versionMajor == 4) && versionMinor == 3 { mechanism = "extensible" } err = ErrUnsupportedEncryptMechanism`) {
+			fail("encryptionMechanism: version table")
+		}
 		b = c13body("encryption", "standardKeyEncryption")
 		if !strings.Contains(b, `if len(password) == 0 || len(password) > MaxFieldLength { return nil, ErrPasswordLengthInvalid }`) {
 			fail("standardKeyEncryption: password length guard")
